@@ -118,7 +118,7 @@ func runC15Overlap(c c15Case, st *stack.Stack, stream []byte, baseL1, baseL2, ba
 	}
 	connA.Close()
 	// A's backend connections (one per tier) must be closed, B's must stay
-	deadline := time.Now().Add(10 * time.Second)
+	deadline := time.Now().Add(hangBound())
 	for {
 		l1 := st.L1.OpenConns()
 		l2 := 0
@@ -134,12 +134,12 @@ func runC15Overlap(c c15Case, st *stack.Stack, stream []byte, baseL1, baseL2, ba
 		}
 		if time.Now().After(deadline) {
 			connB.Close()
-			return fmt.Sprintf("with a second, idle client connected: 10s after client A closed at byte %d, L1 has %d open backend connections (want %d: only B's), L2 %d (want %d)", c.Prefix, l1, baseL1+1, l2, wantL2)
+			return fmt.Sprintf("with a second, idle client connected: the bound after client A closed at byte %d, L1 has %d open backend connections (want %d: only B's), L2 %d (want %d)", c.Prefix, l1, baseL1+1, l2, wantL2)
 		}
 		time.Sleep(200 * time.Microsecond)
 	}
 	clB := wire.NewClient(connB, true)
-	clB.Timeout = 10 * time.Second
+	clB.Timeout = hangBound()
 	v := mkValue(uint32(c.Prefix), 25)
 	o1, e1 := clB.Do(wire.Cmd{Kind: wire.Set, Key: "kov", Value: v, Flags: 3})
 	o2, e2 := clB.Do(wire.Cmd{Kind: wire.Get, Keys: []string{"kov"}})
@@ -147,8 +147,8 @@ func runC15Overlap(c c15Case, st *stack.Stack, stream []byte, baseL1, baseL2, ba
 	if e1 != nil || e2 != nil || o1.Class != wire.OK || len(o2.Hits) != 1 || string(o2.Hits[0].Value) != string(v) {
 		return fmt.Sprintf("the idle client B was not served correctly after client A disconnected at byte %d: set %v %s / get %v %s", c.Prefix, e1, o1, e2, o2)
 	}
-	if held := c15Quiesce(st, baseL1, baseL2, baseG, 10*time.Second); held != "" {
-		if held2 := c15Quiesce(st, baseL1, baseL2, baseG, 20*time.Second); held2 != "" {
+	if held := c15Quiesce(st, baseL1, baseL2, baseG, 20*time.Second); held != "" {
+		if held2 := c15Quiesce(st, baseL1, baseL2, baseG, c15Second()); held2 != "" {
 			return "after both clients left: " + held2
 		}
 	}
@@ -181,17 +181,17 @@ func runC15(c c15Case, st *stack.Stack, stream []byte, baseL1, baseL2, baseG int
 		time.Sleep(50 * time.Microsecond)
 	}
 	conn.Close()
-	if held := c15Quiesce(st, baseL1, baseL2, baseG, 10*time.Second); held != "" {
+	if held := c15Quiesce(st, baseL1, baseL2, baseG, 20*time.Second); held != "" {
 		// second, longer wait before calling it a leak
-		if held2 := c15Quiesce(st, baseL1, baseL2, baseG, 20*time.Second); held2 != "" {
+		if held2 := c15Quiesce(st, baseL1, baseL2, baseG, c15Second()); held2 != "" {
 			var dump [1 << 16]byte
 			n := runtime.Stack(dump[:], true)
-			return fmt.Sprintf("30s after the client closed its connection at byte %d of the stream, still held: %s; goroutines:\n%s", c.Prefix, held2, dump[:n])
+			return fmt.Sprintf("more than a minute after the client closed its connection at byte %d of the stream, still held: %s; goroutines:\n%s", c.Prefix, held2, dump[:n])
 		}
 	}
 	// a fresh client operates on the same keys: no stuck lock, served per model
 	cl := wire.NewClient(st.Dial(c.Port), true)
-	cl.Timeout = 10 * time.Second
+	cl.Timeout = hangBound()
 	defer cl.Close()
 	for i, k := range []string{"ka", "kb", "kn"} {
 		v := mkValue(uint32(c.Prefix+i), 30)
@@ -211,7 +211,7 @@ func runC15(c c15Case, st *stack.Stack, stream []byte, baseL1, baseL2, baseG int
 		}
 	}
 	cl.Close()
-	if held := c15Quiesce(st, baseL1, baseL2, baseG, 10*time.Second); held != "" {
+	if held := c15Quiesce(st, baseL1, baseL2, baseG, 20*time.Second); held != "" {
 		return "after the fresh client closed: " + held
 	}
 	return ""
@@ -341,4 +341,13 @@ func TestC15Replay(t *testing.T) {
 	if msg := runC15(c, st, stream, baseL1, baseL2, baseG); msg != "" {
 		t.Fatalf("C15 replay %+v: %s", c, msg)
 	}
+}
+
+// c15Second is the second, longer wait before something still held is called a leak.
+func c15Second() time.Duration {
+	d := hangBound()
+	if d > 10*time.Second {
+		noteHang()
+	}
+	return d
 }
